@@ -69,6 +69,10 @@ struct EnvInner {
     /// the server resources of the case, created (under the root owner) before the view is built, as a component
     /// body does: one per (kind, future)
     res: Mutex<HashMap<(char, usize), AnyRes>>,
+    /// `<Transition set_pending=…>`: the signal of every Transition that can resolve on the server
+    pending: Mutex<Vec<RwSignal<bool>>>,
+    /// `<Await blocking=true>` (every Await on an even future): futures that were awaited by one
+    blocking: Mutex<Vec<usize>>,
 }
 #[derive(Clone, Default)]
 struct Env(Arc<EnvInner>);
@@ -494,8 +498,17 @@ fn build(v: &V, env: &Env) -> AnyView {
             let kids = kids.clone();
             let env = env.clone();
             if *transition {
-                view! { <Transition fallback=move || fb_view(fb.clone())>{build_all(&kids, &env)}</Transition> }
-                    .into_any()
+                // a signal that follows "some resource read under this boundary is still loading"
+                let sig = RwSignal::new(false);
+                if !has_local(&kids) {
+                    env.0.pending.lock().unwrap().push(sig);
+                }
+                view! {
+                    <Transition fallback=move || fb_view(fb.clone()) set_pending=sig.write_only()>
+                        {build_all(&kids, &env)}
+                    </Transition>
+                }
+                .into_any()
             } else {
                 view! { <Suspense fallback=move || fb_view(fb.clone())>{build_all(&kids, &env)}</Suspense> }
                     .into_any()
@@ -504,6 +517,12 @@ fn build(v: &V, env: &Env) -> AnyView {
         V::Await(k, kids) => {
             let rx = env.rx(*k);
             let kids = kids.clone();
+            // a blocking resource (`defer_stream`) on every even future: the stream itself is the same, the integration
+            // waits for the deferred futures before it sends the first chunk
+            let blocking = *k % 2 == 0;
+            if blocking {
+                env.0.blocking.lock().unwrap().push(*k);
+            }
             let env = env.clone();
             view! {
                 <Await
@@ -511,6 +530,7 @@ fn build(v: &V, env: &Env) -> AnyView {
                         let _ = rx.await;
                         7u32
                     }
+                    blocking=blocking
                     children=move |_d: &u32| build_all(&kids, &env)
                 />
             }
@@ -663,6 +683,24 @@ fn res_reads(v: &V, out: &mut Vec<(char, usize)>) {
             k.iter().for_each(|x| res_reads(x, out))
         }
         V::Suspense { kids, .. } => kids.iter().for_each(|x| res_reads(x, out)),
+    }
+}
+
+/// text, elements, tuples, Vecs, islands only: `to_html_branching()` is defined by the same types
+fn sync_only(v: &V) -> bool {
+    match v {
+        V::Text(_) => true,
+        V::El(_, k) | V::Island(_, k) | V::Tup(k) | V::List(k) => k.iter().all(sync_only),
+        _ => false,
+    }
+}
+
+/// a Suspend outside every boundary: its out-of-order chunk is pushed without the nonce (F-C07-8)
+fn has_top_suspend(v: &V) -> bool {
+    match v {
+        V::Text(_) | V::LocalRead(_) | V::LocalAwait(_) | V::Suspense { .. } | V::Await(..) => false,
+        V::Suspend(..) | V::ResSuspend(..) => true,
+        V::El(_, k) | V::Island(_, k) | V::Tup(k) | V::List(k) | V::Eb(k) | V::ResRead(_, _, k) => k.iter().any(has_top_suspend),
     }
 }
 
@@ -840,6 +878,38 @@ struct Case {
     /// the `_branching` streams; the nonce provided to the view (random: the observable shows `NONCE`)
     branching: bool,
     nonce: Option<String>,
+    /// level A: the nonces the program passes to `push_async_out_of_order_with_nonce`
+    prog_nonces: Vec<String>,
+    /// branching modes, a view without any future: `to_html_branching()` of the same view (type ids as `T`)
+    plain_branching: Option<String>,
+}
+
+fn nonces_of_ops(ops: &[Op], out: &mut Vec<String>) {
+    for o in ops {
+        match o {
+            Op::Async(_, b) | Op::Sub(b) => nonces_of_ops(b, out),
+            Op::Ooo { body, nonce, .. } => {
+                out.extend(nonce.clone());
+                nonces_of_ops(body, out)
+            }
+            _ => {}
+        }
+    }
+}
+
+/// every `<script nonce="…">` carries one of the given nonces as its attribute value (read the way an HTML parser
+/// does: up to the next double quote)
+fn nonce_attrs_ok(raw: &str, nonces: &[String]) -> bool {
+    let mut rest = raw;
+    while let Some(p) = rest.find("<script nonce=\"") {
+        let after = &rest[p + 15..];
+        let Some(q) = after.find('"') else { return false };
+        if !nonces.iter().any(|n| n == &after[..q]) || !after[q + 1..].starts_with('>') {
+            return false;
+        }
+        rest = &after[q..];
+    }
+    true
 }
 
 /// the observable form of a chunk: the random nonce as `NONCE`, `{:?}` of a `TypeId` (AnyView's branch id) as `T`
@@ -988,6 +1058,15 @@ fn start(level_b: bool, free: bool, mode: &str, d0: &str, toks: &[&str]) -> Stri
             }
         });
         let reference = new_owner().with(|| build_resolved(&root).to_html());
+        let plain_branching = {
+            if branching && sync_only(&root) {
+                let o = new_owner();
+                let r = o.with(|| build(&root, &Env::default()).to_html_branching());
+                Some(r)
+            } else {
+                None
+            }
+        };
         let mut f = Facts::default();
         facts(&root, &vec![], &Some(None), &mut f);
         // F-C07-6 (class sync-read-late): the boundary does not wait for such a read; the per-poll oracles do not apply
@@ -996,7 +1075,8 @@ fn start(level_b: bool, free: bool, mode: &str, d0: &str, toks: &[&str]) -> Stri
         needed_futs(std::slice::from_ref(&root), &mut all_futs);
         Case {
             env, owner, stream: Some(Box::pin(stream)), ooo, level_b, reference, raw: String::new(), facts: f,
-            known_class, dead: false, finished: false, free, all_futs, ended: false, branching, nonce,
+            known_class, dead: false, finished: false, free, all_futs, ended: false, branching, nonce, prog_nonces: vec![],
+            plain_branching,
         }
     } else {
         let Some(ops) = parse_ops(toks, &mut i) else { return "bad-op".into() };
@@ -1013,7 +1093,8 @@ fn start(level_b: bool, free: bool, mode: &str, d0: &str, toks: &[&str]) -> Stri
         Case {
             env, owner, stream: Some(Box::pin(stream)), ooo, level_b, reference: doc_of(&ops, ooo), raw: String::new(),
             facts: Facts::default(), known_class: false, dead: false, finished: false, free, all_futs, ended: false,
-            branching: false, nonce: None,
+            branching: false, nonce: None, prog_nonces: { let mut n = vec![]; nonces_of_ops(&ops, &mut n); n },
+            plain_branching: None,
         }
     };
     CASE.with(|c| *c.borrow_mut() = Some(case));
@@ -1174,16 +1255,46 @@ fn op(line: &str) -> String {
             let c = c.borrow();
             let Some(c) = c.as_ref() else { return "bad-op".to_string() };
             let doc = if c.ooo { apply_scripts(&c.raw) } else { c.raw.clone() };
+            // <Transition set_pending> / <Await blocking>: once the stream has ended and everything has completed, no
+            // Transition is pending any more and every deferred future (what the integration waits for before the first
+            // chunk) is ready
+            let mut extra: Option<&str> = None;
+            if c.level_b && c.finished && !c.known_class && c.all_futs.iter().all(|k| c.env.is_sent(*k)) {
+                c.owner.with(|| {
+                    sched::run_until_idle(100_000);
+                    if c.env.0.pending.lock().unwrap().iter().any(|s| s.try_get_untracked() == Some(true)) {
+                        extra = Some("fail transition-still-pending");
+                    }
+                    if c.env.0.blocking.lock().unwrap().iter().all(|k| c.env.is_sent(*k)) {
+                        let sc = Owner::current_shared_context().unwrap();
+                        let waker = sched::noop_waker();
+                        let mut cx = Context::from_waker(&waker);
+                        while let Some(mut fut) = sc.await_deferred() {
+                            if fut.as_mut().poll(&mut cx).is_pending() {
+                                extra = Some("fail deferred-not-ready");
+                                break;
+                            }
+                        }
+                    }
+                });
+            }
             match *chk {
                 "check" => {
                     let plain = if c.branching { strip_branches(&doc) } else { Some(doc.clone()) };
                     let v = if !c.finished {
                         "fail not-terminated"
+                    } else if let Some(e) = extra {
+                        e
+                    } else if !c.level_b && !nonce_attrs_ok(&c.raw, &c.prog_nonces) {
+                        "fail nonce-attr-broken"
                     } else if c.nonce.is_some() && count(&c.raw, "<script") != count(&c.raw, "<script nonce=\"NONCE\">") {
                         // under a nonce-based CSP the browser does not run an inline script without the nonce
                         "fail script-without-nonce"
                     } else if plain.is_none() {
                         "fail branch-markers-unbalanced"
+                    } else if c.plain_branching.as_ref().is_some_and(|r| norm(c, r) != c.raw) {
+                        // no future anywhere: the stream is the synchronous render, markers included
+                        "fail branch-markers-differ"
                     } else if plain.as_deref() == Some(c.reference.as_str()) {
                         "ok"
                     } else {
@@ -1412,7 +1523,12 @@ impl Gen {
                         let fb = self.tok("fb");
                         out.push(Op::Fallback(format!("<u>{fb}</u>")));
                         let replace = !self.r.chance(1, 8);
-                        let nonce = if self.r.chance(1, 6) { Some(self.tok("nonce")) } else { None };
+                        // F-C07-9 (API only): the nonce is written into the attribute as it is
+                        let nonce = match self.r.below(24) {
+                            0 => Some(format!("n\"><x{}", self.tok("q"))),
+                            1..=3 => Some(self.tok("nonce")),
+                            _ => None,
+                        };
                         out.push(Op::Ooo {
                             deps: vec![k],
                             replace,
@@ -1645,7 +1761,7 @@ const SHAPES_B: &[&str] = &[
     // nested Suspense, sibling Suspend
     "esection[ Sfb1[ ep[ t6331 ] s1[ ei[ t7631 ] ] Sfb2[ s2[ eem[ t7632 ] ] ep[ t6332 ] ] ] s3[ eb[ t7633 ] ] ]",
     // Suspend whose output contains a Suspense and an Await
-    "ediv[ s1[ ep[ t7631 ] Sfb1[ s2[ ei[ t7632 ] ] ] ] A3[ eb[ t7633 ] ] ep[ t6131 ] ]",
+    "ediv[ s1[ ep[ t7631 ] Sfb1[ s2[ ei[ t7632 ] ] ] ] A3[ I[ eb[ t7633 ] ] ] C[ ep[ t6131 ] ] ]",
     // three top-level Suspends in a Vec and a tuple
     "l[ s1[ eb[ t7631 ] ] q[ s2[ ei[ t7632 ] ] ep[ t6131 ] ] s3[ eem[ t7633 ] ] ]",
     // depth 3 and four futures
@@ -1677,7 +1793,9 @@ fn gen(seed: u64, n: usize, path: &str, tier: &str) -> std::io::Result<()> {
         let max_gap = if futs.len() >= 4 { if thorough { 2 } else { 1 } } else if thorough { 3 } else { 2 };
         let mut schs = vec![];
         schedules(&futs, max_gap, &mut schs);
-        for mode in ["io", "ooo"] {
+        // the `_branching` streams and a provided nonce: the first shapes (no late read: its `None` is an `Either` of its own)
+        let modes: &[&str] = if si < 3 { &["io", "ooo", "iob", "ooob", "ooon", "ion"] } else { &["io", "ooo"] };
+        for mode in modes {
             for sch in &schs {
                 id += 1;
                 let head = format!("view {mode} - {}", toks.join(" "));
@@ -1791,10 +1909,19 @@ fn gen(seed: u64, n: usize, path: &str, tier: &str) -> std::io::Result<()> {
             let known = has_eb(&V::Tup(vs.clone())) || has_nested_suspend(Ctx::Top, &V::Tup(vs.clone()));
             let late = has_late_read(Ctx::Top, &V::Tup(vs.clone()));
             late_reads(Ctx::Top, &V::Tup(vs.clone()), &mut late_futs);
+            let top_suspend = vs.iter().any(has_top_suspend);
             let tag = if futs.is_empty() { "view~plain" } else if late { "view~sync-read-late" } else if known { "view~repaired-class" } else { "view" };
             let mut toks = vec![];
             ser_views(&[V::El("div".into(), vs)], &mut toks);
-            (format!("view {mode} D0 {}", toks.join(" ")), futs, true, true, tag)
+            // branch markers / a nonce; not with a late read (its `None` renders as an `Either` branch of its own)
+            let flags = match g.r.below(8) {
+                0 | 1 if !late => "b",
+                2 => "n",
+                3 if !late => "bn",
+                _ => "",
+            };
+            let tag = if ooo && flags.contains('n') && top_suspend && !late { "view~suspend-no-nonce" } else { tag };
+            (format!("view {mode}{flags} D0 {}", toks.join(" ")), futs, true, true, tag)
         } else if kind < 8 {
             let n = g.r.range(1, 4);
             let ops = g.prog(ooo, 3, max_f, n);
